@@ -143,3 +143,72 @@ func c13Perm(r *core.Run) {
 	r.DistinctN(n)
 	r.Count("arrival_order_trials", n)
 }
+
+// c13Deep: the relevance clauses on very deep stacks (hundreds of frames of one class, as in a runaway recursion):
+// a bucket of N standard-library frames comes after a bucket with one main / module / GOPATH / module-cache frame,
+// and a bucket of N module frames after a bucket with a package-main frame, in both arrival orders.
+func c13Deep(r *core.Run) {
+	mk := func(fn, file string, line int, loc stack.Location) stack.Call {
+		return gen.MkCall(fn, file, line, loc, stack.Args{})
+	}
+	deep := func(n int, c stack.Call) stack.Stack {
+		var st stack.Stack
+		for i := 0; i < n; i++ {
+			st.Calls = append(st.Calls, c)
+		}
+		return st
+	}
+	std := mk("runtime.recurse", "/goroot/src/runtime/proc.go", 100, stack.Stdlib)
+	mod := mk("example.com/mod/pkg.Recurse", "/w/mod/pkg/f.go", 20, stack.GoMod)
+	highs := []stack.Call{
+		mk("main.main", "/w/mod/main.go", 10, stack.GoMod),
+		mk("example.com/mod/pkg.F", "/w/mod/pkg/f.go", 21, stack.GoMod),
+		mk("github.com/gp/lib.G", "/gopath/src/github.com/gp/lib/g.go", 30, stack.GOPATH),
+		mk("github.com/dep/x.H", "/gopath/pkg/mod/github.com/dep/x@v1.0.0/h.go", 40, stack.GoPkg),
+	}
+	type pair struct {
+		low  stack.Call
+		high stack.Call
+		what string
+	}
+	var pairs []pair
+	for _, h := range highs {
+		pairs = append(pairs, pair{std, h, "standard-library frames vs one " + h.Func.Complete + " frame"})
+	}
+	pairs = append(pairs, pair{mod, highs[0], "module frames vs one package-main frame"})
+	crash := stack.Signature{State: "running", Stack: stack.Stack{Calls: []stack.Call{mk("unknown/z.Crash", "/somewhere/z.go", 1, stack.LocationUnknown)}}}
+	for _, n := range []int{3, 255, 256, 257, 258, 300, 600, 1000, 70000} {
+		if r.Quick() && n > 1000 {
+			continue
+		}
+		for _, p := range pairs {
+			for order := 0; order < 2; order++ {
+				low := stack.Signature{State: "select", Stack: deep(n, p.low)}
+				high := stack.Signature{State: "select", Stack: stack.Stack{Calls: []stack.Call{p.high}}}
+				sigs := []*stack.Signature{&crash, &low, &high}
+				if order == 1 {
+					sigs = []*stack.Signature{&crash, &high, &low}
+				}
+				s := gen.MkSnapshot(sigs)
+				for _, lvl := range []stack.Similarity{stack.ExactFlags, stack.AnyValue} {
+					var a *stack.Aggregated
+					var panicked any
+					func() {
+						defer func() { panicked = recover() }()
+						a = s.Aggregate(lvl)
+					}()
+					r.Eval(1)
+					if panicked != nil || a == nil || len(a.Buckets) != 3 {
+						r.Violation("deep-stack-aggregate", fmt.Sprintf("%d %s: Aggregate panicked or lost a bucket: %v", n, p.what, panicked), "deep", map[string]any{"n": n, "what": p.what})
+						return
+					}
+					if len(a.Buckets[1].Stack.Calls) != 1 {
+						r.Violation("deep-stack-order", fmt.Sprintf("a bucket of %d %s: the deep bucket is presented before the other one (arrival order %d)", n, p.what, order), "deep", map[string]any{"n": n, "what": p.what, "order": order})
+						return
+					}
+				}
+			}
+		}
+	}
+	r.Count("deep_stack_cases", 1)
+}
